@@ -1071,6 +1071,8 @@ def run(R, escalate=False):
     mp = fw.ModelProc("C16")
     try:
         check_registry(R, mp, rng)
+        if escalate and R.tier != "thorough" and R.oracle_failures:
+            thorough = False          # the failing input is already in hand: no need for the escalated search
         corp = corpus_identities()
         if corp:
             R.count("source", "corpus", len(corp))
